@@ -752,7 +752,14 @@ class CallMixin(object):
         raise Unsupported('str(%r)' % (a,))
 
     def bi_repr(self, args, kw, st, n):
-        raise Unsupported('repr()')
+        for s, a in self.split(st, args[0]):
+            if isinstance(a, BoolV):
+                for s2, t in self.fork(s, a.t):
+                    yield s2, ConstV('True' if t else 'False')
+            elif isinstance(a, ConstV) and isinstance(a.py, (bool, int, str)):
+                yield s, ConstV(repr(a.py))
+            else:
+                raise Unsupported('repr(%r)' % (a,))
 
     def bi_dict(self, args, kw, st, n):
         if not args:
@@ -792,6 +799,9 @@ class CallMixin(object):
             self._dig = z3.Function('digits', z3.IntSort(), IntSeq)
             self._undig = z3.Function('undigits', IntSeq, z3.IntSort())
             self.digit_facts = []
+        cx = const_of(x)
+        if cx is not None:
+            return seq_lit([ord(c) for c in str(cx)])           # decimal text of a literal
         d = self._dig(x)
         j = fresh('dj')
         self.digit_facts += [
@@ -800,6 +810,7 @@ class CallMixin(object):
             z3.ForAll([j], z3.Implies(z3.And(0 <= j, j < z3.Length(d)),
                                       z3.Or(z3.And(d[j] >= 48, d[j] <= 57), z3.And(j == 0, d[j] == 45, x < 0)))),
             z3.Implies(x >= 0, z3.And(d[0] >= 48, d[0] <= 57)),
+            z3.Not(z3.Contains(d, z3.Unit(z3.IntVal(58)))),        # no ':' in decimal text (consequence of the above)
         ]
         return d
 
@@ -844,6 +855,13 @@ class CallMixin(object):
             if name == 'keys':
                 yield st, ConstV(tuple(recv.py.keys()))
                 return
+        if isinstance(recv, ConstV) and isinstance(recv.py, (bytes, str)) and name in ('lower', 'upper', 'strip', 'encode', 'decode', 'startswith', 'endswith') \
+                and all(isinstance(a, ConstV) for a in args) and not kw:
+            try:
+                yield st, lift(getattr(recv.py, name)(*[a.py for a in args]))       # constant folding
+            except Exception as e:
+                yield st, ExcV(type(e).__name__, str(e), line)
+            return
         if isinstance(recv, ConstV) and isinstance(recv.py, (bytes, str)):
             if name == 'join':
                 yield from self.join(recv, args[0], st, n)
@@ -992,6 +1010,13 @@ class CallMixin(object):
                     else:
                         yield s, ExcV('UnicodeEncodeError', enc, line)
                 return
+            if enc in ('utf-8', 'utf8'):
+                e8 = z3.Function('utf8enc', IntSeq, IntSeq)
+                d8 = z3.Function('utf8dec', IntSeq, IntSeq)
+                s = st.clone()
+                s.pc.append(d8(e8(recv.t)) == recv.t)
+                yield s, SeqV(e8(recv.t), 'bytes')
+                return
             raise Unsupported('encode(%r)' % enc)
         if name == 'decode' and recv.kind in ('bytes', 'bytearray'):
             enc = args[0].py if args else 'utf-8'
@@ -1006,6 +1031,10 @@ class CallMixin(object):
                         yield s, SeqV(recv.t, 'str')
                     else:
                         yield s, ExcV('UnicodeDecodeError', enc, line)
+                return
+            if enc in ('utf-8', 'utf8'):
+                d8 = z3.Function('utf8dec', IntSeq, IntSeq)
+                yield st, SeqV(d8(recv.t), 'str')       # (invalid utf-8 raising UnicodeDecodeError is outside the T2 model)
                 return
             raise Unsupported('decode(%r)' % enc)
         if name == 'split' and len(args) == 2 and const_of(to_int(args[1])) == 1:
